@@ -157,6 +157,25 @@ def run_bounded(chk):
                 fails.append((f"sphero:{cname}/r={r:.3g}", {"vertices": v.tolist(), "radius": r, "point": keep[i].tolist(),
                                                              "distance_to_core": dist_to_convex(keep[i], v, faces),
                                                              "expected_inside": bool(want[i]), "is_inside": bool(got[i])}))
+    # the same object after public moves / resizes (probe points are affine combinations of the current vertices)
+    from . import stale
+
+    def probes_inside(shape):
+        v = np.asarray(shape.vertices, float)
+        c = v.mean(axis=0)
+        lam = (0.05, 0.35, 0.8, 1.3, 2.2)
+        pts = np.array([c + l_ * (v[i] - c) for i in range(0, len(v), max(1, len(v) // 6)) for l_ in lam])
+        return {"is_inside(batch)": np.asarray(shape.is_inside(pts)), "is_inside(single)": [bool(np.asarray(shape.is_inside(q)).reshape(-1)[0]) for q in pts[:4]]}
+    verts, faces = B2.voxel_mesh(B2.voxel_solids()["U7"])
+    subjects = [("Polyhedron:U7", cox.shapes.Polyhedron(np.asarray(verts, float) + np.array([2.0, 1.0, -3.0]), [list(f) for f in faces])),
+                ("ConvexPolyhedron:box", cox.shapes.ConvexPolyhedron(np.asarray(corpus.named_convex()["box"]) + np.array([2.0, 1.0, -3.0]))),
+                ("ConvexSpheropolyhedron:box", cox.shapes.ConvexSpheropolyhedron(np.asarray(corpus.named_convex()["box"]) + np.array([2.0, 1.0, -3.0]), 0.3)),
+                ("Sphere", cox.shapes.Sphere(1.5, (1.0, 2.0, 3.0))), ("Ellipsoid", cox.shapes.Ellipsoid(1.0, 2.0, 0.5, (1.0, 2.0, 3.0)))]
+    for label, obj in subjects:
+        if not hasattr(obj, "vertices"):
+            continue
+        n_cases += 1
+        n_eval += stale.read_mutate_read(obj, probes_inside, f"history:{label}", fails)
     for name, info in fails[:5]:
         n_bad += 1
         chk.record(f"bounded:is_inside_3d[{name}]", fkey, "bounded-fail", "exact-membership", detail=str(info)[:500], model={},
@@ -168,7 +187,8 @@ def run_bounded(chk):
                   "batch == single-point calls, (3,) accepted; ConvexSpheropolyhedron.is_inside == (distance to core <= r)",
         "bound": "8 voxel solids x 3 (quick) / 4 placements x all points of a half-integer grid of the bounding box +-1 that are "
                  "not on the boundary (these share coordinates with vertices); 6 (quick) / 20 convex cores x radii {0, 5%, 50% of size} "
-                 "x 300 seeded points, margin 1e-6 size",
+                 "x 300 seeded points, margin 1e-6 size; 3 objects read, then moved / resized / reoriented through their public mutators "
+                 "and re-read against a fresh construction",
         "evaluations": n_eval, "distinct_nontrivial": n_cases,
         "rule": "distinct = (solid, placement) or (core, radius); every case has interior and exterior points",
         "samples": [{"solid": "U7", "example_point": [1.0, 0.5, 0.5]}], "failures": len(fails), "exhaustive": False})
